@@ -8,6 +8,7 @@
 (* do not fill a share.  Shares are symbolic: <<sq, t, flip>> is the share  *)
 (* at row-major position t of the original data square of block `sq`        *)
 (* ("A": the square the payload was made from, "B": another block with a    *)
+(* (<<"P", r, _>>: a share carrying the parity namespace, "Z": all zero)    *)
 (* square of the same width), with `flip` saying which byte of it was       *)
 (* altered.  All committed shares are pairwise distinct (the harness keeps  *)
 (* them so), hence a share is identified by its token.                      *)
@@ -63,7 +64,7 @@ Palette == 5
 NsOf(t, n) == (t * Palette) \div n
 \* namespace rank of a token in a payload laid out for n shares; 100 = not decidable here
 \* (an altered namespace), 101 = an invalid namespace version
-NsRank(tok, n0) == CASE tok[3] = "ns" -> 100 [] tok[3] = "nsver" -> 101 [] OTHER -> NsOf(tok[2], n0)
+NsRank(tok, n0) == CASE tok[1] = "P" -> 200 [] tok[3] = "ns" -> 100 [] tok[3] = "nsver" -> 101 [] OTHER -> NsOf(tok[2], n0)
 
 (* ------------------------------------------------------------------ mutation descriptors *)
 \* positions the index-taking mutations are applied at
@@ -93,9 +94,18 @@ MutsOf(kind, k) ==
       [] kind = "rotate"  -> IF N > 1 THEN {M(k, "rotate", 0, 0, 0, "none")} ELSE {}
       \* N all-zero shares
       [] kind = "zeros"   -> {M(k, "zeros", 0, 0, 0, "none")}
+      \* crafted oversize payloads: i shares laid out in rows of j = floor(sqrt(i)) shares such that the
+      \* first share of row r < 2k carries exactly the minimum namespace of the header's row root r (the
+      \* square's own share <<r, 0>> in the upper half, a share with the parity namespace in the lower
+      \* half): passes any per-row plausibility test against the header, has more rows than the header
+      \* has row roots; lengths w^2, w^2 + 1, w^2 + w, (w + 1)^2 for the EDS width w = 2k
+      [] kind = "craft"   -> IF 2 * k <= AppendMax
+                             THEN {M(k, "craft", 4 * N, 2 * k, 0, "none"), M(k, "craft", 4 * N + 1, 2 * k, 0, "none"),
+                                   M(k, "craft", 4 * N + 2 * k, 2 * k, 0, "none"), M(k, "craft", (2 * k + 1) * (2 * k + 1), 2 * k + 1, 0, "none")}
+                             ELSE {}
       [] OTHER -> {}
 
-LenOf(m) == CASE m.kind = "trunc" -> m.i [] m.kind = "append" -> NN(m.k) + m.j [] OTHER -> NN(m.k)
+LenOf(m) == CASE m.kind = "trunc" -> m.i [] m.kind = "craft" -> m.i [] m.kind = "append" -> NN(m.k) + m.j [] OTHER -> NN(m.k)
 TailOf(m) == m.tail
 
 ZeroTok == <<"Z", 0, "none">>
@@ -115,6 +125,10 @@ ShareAt(m, t) ==
       [] m.kind = "allB"    -> Tok("B", t, "none")
       [] m.kind = "rotate"  -> Tok("A", (t + 1) % N, "none")
       [] m.kind = "zeros"   -> ZeroTok
+      [] m.kind = "craft"   -> LET r == t \div m.j IN
+                               IF t % m.j = 0 /\ r < 2 * m.k
+                               THEN (IF r < m.k THEN Tok("A", r * m.k, "none") ELSE <<"P", r, "none">>)
+                               ELSE Tok("A", t % N, "none")
 
 (* ------------------------------------------------------------------ cases *)
 \* hdr: the header the response is checked against commits to the ODS of block hdr.sq whose
